@@ -1116,11 +1116,18 @@ def thread_sentinel_tests(modules, log=None):
             if not blk:
                 return False
             last = blk[-1]
-            if isinstance(last, ast.If) and len(blk) == 1:
+            if isinstance(last, ast.If) and not any(isinstance(x, ast.Name) and x.id == name for s_ in blk[:-1] for x in ast.walk(s_)):
                 if not leaves(last, name, out):
                     return False
             elif isinstance(last, ast.Assign) and len(last.targets) == 1 and isinstance(last.targets[0], ast.Name) and last.targets[0].id == name \
                     and literal_kind(last.value) is not None and not any(isinstance(x, ast.Name) and x.id == name for s_ in blk[:-1] for x in ast.walk(s_)):
+                out.append(blk)
+            elif isinstance(last, ast.Assign) and len(last.targets) == 1 and isinstance(last.targets[0], ast.Tuple) and isinstance(last.value, ast.Tuple) \
+                    and len(last.targets[0].elts) == len(last.value.elts) and all(isinstance(e, ast.Name) for e in last.targets[0].elts) \
+                    and [e.id for e in last.targets[0].elts].count(name) == 1 \
+                    and literal_kind(last.value.elts[[e.id for e in last.targets[0].elts].index(name)]) is not None \
+                    and not any(isinstance(x, ast.Name) and x.id in {e.id for e in last.targets[0].elts} for v_ in last.value.elts for x in ast.walk(v_)) \
+                    and not any(isinstance(x, ast.Name) and x.id == name for s_ in blk[:-1] for x in ast.walk(s_)):
                 out.append(blk)
             else:
                 return False
@@ -1139,7 +1146,38 @@ def thread_sentinel_tests(modules, log=None):
             return lambda n, tr: ((not n) if isnot else n) != neg
         return None
 
+    tables_cur = [{}]
+
     def simplify(blk, name):
+        # `TABLE['k']` for a module-level literal dict bound once -> the literal it holds
+        tabs = tables_cur[0]
+        if tabs:
+            class _T(ast.NodeTransformer):
+                def visit_Subscript(self, node):
+                    self.generic_visit(node)
+                    if isinstance(node.value, ast.Name) and node.value.id in tabs and isinstance(node.slice, ast.Constant) and isinstance(node.ctx, ast.Load):
+                        d_ = tabs[node.value.id]
+                        for k_, v_ in zip(d_.keys, d_.values):
+                            if isinstance(k_, ast.Constant) and k_.value == node.slice.value and type(k_.value) is type(node.slice.value):
+                                return ast.copy_location(copy.deepcopy(v_), node)
+                    return node
+            blk = [_T().visit(s_) for s_ in blk]
+        # `a, b = (c1, c2); REST(a, b)` with constants, a and b not rebound in REST and REST leaving -> REST(c1, c2)
+        for i in range(len(blk) - 1):
+            a = blk[i]
+            if isinstance(a, ast.Assign) and len(a.targets) == 1 and isinstance(a.targets[0], ast.Tuple) and isinstance(a.value, ast.Tuple) \
+                    and len(a.targets[0].elts) == len(a.value.elts) and all(isinstance(e, ast.Name) for e in a.targets[0].elts) \
+                    and all(isinstance(e, ast.Constant) for e in a.value.elts):
+                rest = blk[i + 1:]
+                names_ = {t_.id: v_ for t_, v_ in zip(a.targets[0].elts, a.value.elts)}
+                if rest and isinstance(rest[-1], (ast.Return, ast.Raise)) and \
+                        not any(isinstance(x, ast.Name) and x.id in names_ and isinstance(x.ctx, (ast.Store, ast.Del)) for s_ in rest for x in ast.walk(s_)):
+                    class _C2(ast.NodeTransformer):
+                        def visit_Name(self, node):
+                            if node.id in names_ and isinstance(node.ctx, ast.Load):
+                                return ast.copy_location(copy.deepcopy(names_[node.id]), node)
+                            return node
+                    return blk[:i] + [_C2().visit(s_) for s_ in rest]
         # `x = (c1, c2); a, b = x; REST(a, b)` -> REST(c1, c2) when x, a, b are not used otherwise in REST
         for i in range(len(blk) - 1):
             a, b = blk[i], blk[i + 1]
@@ -1191,6 +1229,14 @@ def thread_sentinel_tests(modules, log=None):
                 if oc is not None and leaves(a, nm, lv) and len(lv) >= 2:
                     # the name is dead after the test unless the arms use it: fine either way (the binding stays in the leaf)
                     for blk in lv:
+                        last_ = blk[-1]
+                        if isinstance(last_.targets[0], ast.Tuple):
+                            # `flag, value = (True, E)`: split, the flag last
+                            names_ = [e.id for e in last_.targets[0].elts]
+                            k_ = names_.index(nm)
+                            singles = [ast.copy_location(ast.Assign(targets=[t_], value=v_), last_) for j_, (t_, v_) in enumerate(zip(last_.targets[0].elts, last_.value.elts)) if j_ != k_]
+                            singles.append(ast.copy_location(ast.Assign(targets=[last_.targets[0].elts[k_]], value=last_.value.elts[k_]), last_))
+                            blk[-1:] = singles
                         n_, tr_ = literal_kind(blk[-1].value)
                         arm = copy.deepcopy(b.body if oc(n_, tr_) else b.orelse)
                         lit_ = blk[-1].value
@@ -1220,6 +1266,13 @@ def thread_sentinel_tests(modules, log=None):
             i += 1
         return out
     for m in modules.values():
+        stores_ = {}
+        for n_ in ast.walk(m.tree):
+            if isinstance(n_, ast.Name) and isinstance(n_.ctx, (ast.Store, ast.Del)):
+                stores_[n_.id] = stores_.get(n_.id, 0) + 1
+        tables_cur[0] = {st.targets[0].id: st.value for st in m.tree.body if isinstance(st, ast.Assign) and len(st.targets) == 1 and isinstance(st.targets[0], ast.Name)
+                         and isinstance(st.value, ast.Dict) and stores_.get(st.targets[0].id) == 1 and all(isinstance(k_, ast.Constant) for k_ in st.value.keys)
+                         and all(isinstance(v_, (ast.Constant, ast.Tuple)) and all(isinstance(x_, (ast.Constant, ast.Tuple, ast.Load)) for x_ in ast.walk(v_)) for v_ in st.value.values)}
         m.tree.body = visit(m.tree.body, None)
     if changed:
         for m in modules.values():
@@ -1848,6 +1901,10 @@ def undo_attr_renames(modules, log=None):
                 continue
             for old in missing:
                 cands = [n for n in new if csig[n] == rsig[old]]
+                if not cands and len(missing) == 1 and len(new) == 1 and set(csig[new[0]]) == set(rsig[old]):
+                    # the only attribute that went and the only one that came, used in the same methods in the same ways (the counts may differ: a test
+                    # written twice, a store duplicated by a restructuring)
+                    cands = [new[0]]
                 # the signature of the other attributes may itself contain renamed method names: equality is required as it is
                 others = [o for o in missing if rsig[o] == rsig[old]]
                 if len(cands) == 1 and len(others) == 1:
@@ -2375,6 +2432,61 @@ class Inliner:
                                 self._note_extended(mname, st.name, s2, fq)
         return {k: h for k, h in self.helpers.items() if h.ok}
 
+    def _split_short_circuits(self):
+        """a helper call in the short-circuited part of a statement cannot be expanded in place: `x = A or helper(..)` is `x = A; if not x: x = helper(..)`, and
+        `if a and helper(..): S` (no else) is `if a: if helper(..): S`"""
+        changed = False
+        for mname, m in self.modules.items():
+            scopes = [(None, st) for st in m.tree.body if isinstance(st, ast.FunctionDef)] + \
+                     [(c.name, s2) for c in m.tree.body if isinstance(c, ast.ClassDef) for s2 in c.body if isinstance(s2, ast.FunctionDef)]
+            for cls_name, fn in scopes:
+                def is_helper_call(e):
+                    if not isinstance(e, ast.Call):
+                        return False
+                    h, _r = self._resolve0(mname, cls_name, e)
+                    return h is not None and h.ok
+
+                def visit(stmts):
+                    nonlocal changed
+                    out = []
+                    for st in stmts:
+                        if isinstance(st, DEFS):
+                            out.append(st)
+                            continue
+                        for fld in ('body', 'orelse', 'finalbody'):
+                            sub = getattr(st, fld, None)
+                            if isinstance(sub, list) and sub and isinstance(sub[0], ast.stmt):
+                                setattr(st, fld, visit(sub))
+                        if isinstance(st, ast.Try):
+                            for hd in st.handlers:
+                                hd.body = visit(hd.body)
+                        if isinstance(st, ast.Assign) and len(st.targets) == 1 and isinstance(st.targets[0], ast.Name) and isinstance(st.value, ast.BoolOp) \
+                                and isinstance(st.value.op, ast.Or) and len(st.value.values) == 2 and is_helper_call(st.value.values[1]) \
+                                and not any(isinstance(x, ast.Call) for x in ast.walk(st.value.values[0])):
+                            t = st.targets[0].id
+                            first = ast.copy_location(ast.Assign(targets=[ast.Name(id=t, ctx=ast.Store())], value=st.value.values[0]), st)
+                            second = ast.copy_location(ast.Assign(targets=[ast.Name(id=t, ctx=ast.Store())], value=st.value.values[1]), st)
+                            cond = ast.copy_location(ast.If(test=ast.UnaryOp(op=ast.Not(), operand=ast.Name(id=t, ctx=ast.Load())), body=[second], orelse=[]), st)
+                            for n_ in (first, cond):
+                                ast.fix_missing_locations(n_)
+                            out.extend([first, cond])
+                            changed = True
+                            continue
+                        if isinstance(st, ast.If) and not st.orelse and isinstance(st.test, ast.BoolOp) and isinstance(st.test.op, ast.And) and len(st.test.values) >= 2 \
+                                and is_helper_call(st.test.values[-1]) and not any(is_helper_call(x) for v in st.test.values[:-1] for x in ast.walk(v)):
+                            rest = st.test.values[:-1]
+                            outer_t = rest[0] if len(rest) == 1 else ast.BoolOp(op=ast.And(), values=rest)
+                            inner = ast.copy_location(ast.If(test=st.test.values[-1], body=st.body, orelse=[]), st)
+                            outer = ast.copy_location(ast.If(test=outer_t, body=[inner], orelse=[]), st)
+                            ast.fix_missing_locations(outer)
+                            out.append(outer)
+                            changed = True
+                            continue
+                        out.append(st)
+                    return out
+                fn.body = visit(fn.body)
+        return changed
+
     def _absorb_continuations(self):
         """`T = helper(..); <straight-line statements>; return E` at the end of a function of the reference layout, where the helper leaves from inside loops (so
         its body cannot be spliced in front of the rest): the rest is the continuation of every return of the helper - a copy of the helper is made in which each
@@ -2808,7 +2920,119 @@ class Inliner:
                     cands = [v for (mn, cn, n), v in self.helpers.items() if cn and n == f.attr]
                     if len(cands) == 1 and cands[0].ok and cands[0].kind == 'method' and self._unique_method_name(f.attr):
                         return cands[0], f.value
+        # a new module-level function of *another* module of the package: `othermod.helper(..)` / `helper(..)` imported by name
+        tgt = self._cross_module_target(mname, f)
+        if tgt is not None:
+            h = self.helpers.get((tgt[0], None, tgt[1]))
+            if h is not None and h.ok and h.kind == 'function' and self._free_names_ok(h, mname, dry=True):
+                return h, None
         return None, None
+
+    def _import_map(self, mname):
+        """alias -> ('module', modname) | ('name', modname, name) for the package-internal imports of a module"""
+        cache = getattr(self, '_imaps', None)
+        if cache is None:
+            cache = self._imaps = {}
+        if mname in cache:
+            return cache[mname]
+        m = self.modules[mname]
+        out = {}
+
+        def absolute(level, module):
+            if level == 0:
+                return module
+            base = mname.split('.')
+            if not getattr(m, 'is_pkg', False):
+                base = base[:-1]
+            if level > 1:
+                base = base[: len(base) - (level - 1)]
+            return '.'.join(base + ([module] if module else []))
+        for st in m.tree.body:
+            if isinstance(st, ast.ImportFrom):
+                base = absolute(st.level, st.module)
+                for a in st.names:
+                    alias = a.asname or a.name
+                    if f'{base}.{a.name}' in self.modules:
+                        out[alias] = ('module', f'{base}.{a.name}')
+                    elif base in self.modules:
+                        out[alias] = ('name', base, a.name)
+            elif isinstance(st, ast.Import):
+                for a in st.names:
+                    if a.name in self.modules and a.asname:
+                        out[a.asname] = ('module', a.name)
+        cache[mname] = out
+        return out
+
+    def _cross_module_target(self, mname, f):
+        im = self._import_map(mname)
+        if isinstance(f, ast.Attribute) and isinstance(f.value, ast.Name) and im.get(f.value.id, ('',))[0] == 'module':
+            return (im[f.value.id][1], f.attr)
+        if isinstance(f, ast.Name) and im.get(f.id, ('',))[0] == 'name':
+            return (im[f.id][1], im[f.id][2])
+        return None
+
+    def _free_names_ok(self, h, mname, dry=False):
+        """the global names a helper of another module uses must mean the same in the module it is expanded into: what that module lacks is imported
+        (in memory), a name bound to something else there blocks the expansion"""
+        import builtins
+        hm = self.modules[h.modname]
+        cm = self.modules[mname]
+        local = set(h.stored) | set(h.params)
+        free = {n.id for st in h.node.body for n in ast.walk(st) if isinstance(n, ast.Name) and isinstance(n.ctx, ast.Load)} - local - set(dir(builtins))
+
+        def bindings(mod):
+            out = {}
+            for st in mod.tree.body:
+                if isinstance(st, ast.Import):
+                    for a in st.names:
+                        out[a.asname or a.name.split('.')[0]] = ('import', a.name, a.asname)
+                elif isinstance(st, ast.ImportFrom):
+                    for a in st.names:
+                        out[a.asname or a.name] = ('from', st.level, st.module, a.name, a.asname)
+                elif isinstance(st, (ast.FunctionDef, ast.ClassDef)):
+                    out[st.name] = ('def', mod.name)
+                elif isinstance(st, (ast.Assign, ast.AnnAssign)):
+                    for t in (st.targets if isinstance(st, ast.Assign) else [st.target]):
+                        for x in ast.walk(t):
+                            if isinstance(x, ast.Name):
+                                out[x.id] = ('assign', mod.name)
+            return out
+        hb, cb = bindings(hm), bindings(cm)
+        todo = []
+        for nme in sorted(free):
+            if nme not in hb:
+                continue          # not a module-level name of the helper's module (an unbound name either way)
+            b = hb[nme]
+            if nme in cb:
+                c = cb[nme]
+                same = (b == c) or (b[0] == 'import' and c[0] == 'import' and b[1] == c[1]) or \
+                    (b[0] in ('def', 'assign') and c[0] == 'from' and c[3] == nme and (c[2] or '').split('.')[-1] == h.modname.split('.')[-1])
+                if not same:
+                    return False
+                continue
+            if b[0] == 'import':
+                todo.append(ast.Import(names=[ast.alias(name=b[1], asname=b[2])]))
+            elif b[0] == 'from':
+                # absolute form of the helper module's own import
+                base = h.modname.split('.')
+                if not getattr(hm, 'is_pkg', False):
+                    base = base[:-1]
+                if b[1] > 1:
+                    base = base[: len(base) - (b[1] - 1)]
+                modname = '.'.join(base + ([b[2]] if b[2] else [])) if b[1] else b[2]
+                todo.append(ast.ImportFrom(module=modname, names=[ast.alias(name=b[3], asname=b[4])], level=0))
+            else:
+                todo.append(ast.ImportFrom(module=h.modname, names=[ast.alias(name=nme, asname=None)], level=0))
+        if not dry:
+            for st in todo:
+                ast.fix_missing_locations(st)
+            k = 0
+            while k < len(cm.tree.body) and isinstance(cm.tree.body[k], ast.Expr) and isinstance(cm.tree.body[k].value, ast.Constant):
+                k += 1
+            cm.tree.body[k:k] = todo
+            if getattr(self, '_imaps', None):
+                self._imaps.pop(mname, None)
+        return True
 
     def _unique_method_name(self, name):
         if getattr(self, '_method_names', None) is None:
@@ -2963,6 +3187,10 @@ class Inliner:
                     ast.copy_location(n, call)
                 if isinstance(n, ast.stmt):
                     n._inlined_from = f'{h.modname}:{h.qual}'
+        cur_mod = (getattr(self, '_cur_fq', None) or '').partition(':')[0]
+        if cur_mod and h.cls_name is None and h.modname != cur_mod and cur_mod in self.modules:
+            if not self._free_names_ok(h, cur_mod, dry=False):
+                return None
         key = (h.modname, h.cls_name, h.node.name)
         self.inlined_sites[key] = self.inlined_sites.get(key, 0) + 1
         return res
@@ -3701,6 +3929,8 @@ class Inliner:
         any_change = self._residualise_extended_calls() if self.ext_helpers else False
         if self._absorb_continuations():
             any_change = True
+        if self._split_short_circuits():
+            any_change = True
         for _round in range(3):
             changed = False
             for mname, m in self.modules.items():
@@ -4162,9 +4392,10 @@ class Inliner:
                             for i, st in enumerate(body):
                                 if isinstance(st, ast.Assign) and len(st.targets) == 1 and isinstance(st.targets[0], ast.Tuple) and \
                                         isinstance(st.value, ast.Tuple) and len(st.value.elts) == len(st.targets[0].elts) and \
-                                        all(isinstance(e, ast.Name) for e in st.targets[0].elts + st.value.elts) and \
-                                        any(is_made(e.id) for e in st.targets[0].elts + st.value.elts) and \
-                                        not ({e.id for e in st.targets[0].elts} & {e.id for e in st.value.elts}):
+                                        all(isinstance(e, ast.Name) for e in st.targets[0].elts) and \
+                                        all(isinstance(e, ast.Name) or (pure(e) and not any(isinstance(x_, ast.Call) for x_ in ast.walk(e))) for e in st.value.elts) and \
+                                        any(is_made(e.id) for e in st.targets[0].elts + [v_ for v_ in st.value.elts if isinstance(v_, ast.Name)]) and \
+                                        not ({e.id for e in st.targets[0].elts} & {x_.id for v_ in st.value.elts for x_ in ast.walk(v_) if isinstance(x_, ast.Name)}):
                                     # `a, b = (p__i1, q__i1)`: two plain copies
                                     body[i:i + 1] = [ast.copy_location(ast.Assign(targets=[t_], value=v_), st) for t_, v_ in zip(st.targets[0].elts, st.value.elts)]
                                     done = True
